@@ -37,7 +37,7 @@ claim("C02",
       "Theorems: for every reader (any partition of the stream into reads) the Read-driven parser returns what the flat parser returns on the concatenation and leaves the same "
       "bytes; any value sequence in any partition parses to exactly those values then end of stream. Tied to proto.Parser behind a scripted chunking reader: every 2-way split, "
       "1-byte delivery and random k-way partitions.",
-      TB + "Transport assumption: Read never returns (0, nil) and reports EOF separately from data.",
+      TB + "Transport assumption of the theorem: Read never returns (0, nil) and reports the end of the stream by itself; a Read that returns its last bytes together with io.EOF is covered by the correspondence run only (fix df93189).",
       "Coq theorem (chunked parser = flat parser) + differential execution over scripted chunkings")
 claim("C06",
       "Theorems: for every byte string and every chunking the parser returns a value, end of stream or an error - never a panic (makeslice from a declared count/length, index out of "
